@@ -341,8 +341,14 @@ void vf_case(uint64_t, vf_rng *r)
 					vf_count("monitor:set-default-registered", 1);
 					VF_CHECK(ok, "model:default:registered-id-refused", "set_default(%#" PRIxPTR ") refused although registration #%d holds the id", id, have->serial);
 					mdef = id;
+				} else if (!ok) {
+					/* a refused request changes nothing */
+					vf_count("monitor:set-default-refused", 1);
+					if (mdef && model.find(mdef) != model.end()) vf_count("default:refused-while-valid-default", 1);
+					VF_CHECK(d.def() == mdef, "model:default:refused-call-changed-default",
+					         "set_default(%#" PRIxPTR ") was refused (no such handler) but the default id changed from %#" PRIxPTR " to %#" PRIxPTR, id, mdef, d.def());
 				} else {
-					/* unregistered (or zero) id: outcome not specified, adopt */
+					/* accepted although unregistered or zero: outcome not specified, adopt */
 					mdef = d.def();
 				}
 				check_fins(0);
